@@ -233,7 +233,12 @@ func (e *Engine) merge(states []*State) *State {
 		pcs[i] = s.pc
 		pc = tOr(pc, s.pc)
 	}
-	out := &State{pc: e.name(pc, "pc"), cells: map[cellKey]Val{}, heaps: map[string]T{}, defers: map[int][]*deferEntry{}}
+	out := &State{pc: e.name(pc, "pc"), cells: map[cellKey]Val{}, heaps: map[string]T{}, defers: map[int][]*deferEntry{}, segs: map[int32]bool{}}
+	for _, s := range live {
+		for k := range s.segs {
+			out.segs[k] = true
+		}
+	}
 	// allocation clock
 	out.tbase, out.toff = live[0].tbase, live[0].toff
 	sameT := true
@@ -448,6 +453,8 @@ func (e *Engine) runBlocks(fr *Frame, start *ssa.BasicBlock, st *State, region m
 		if s == nil {
 			continue
 		}
+		e.curSeg = 0
+		e.useState(s)
 		if li.backEdge[b] != nil && b != dryHead {
 			s = e.enterLoop(fr, b, s)
 			if s == nil {
@@ -499,6 +506,7 @@ func (e *Engine) runBlocks(fr *Frame, start *ssa.BasicBlock, st *State, region m
 			}
 		}
 	}
+	e.curSeg = 0 // whoever continues names its own state (useState)
 	return rets, backs
 }
 
@@ -542,6 +550,7 @@ func (e *Engine) loopLocalWrites(fr *Frame, head *ssa.BasicBlock) string {
 
 // enterLoop: assert invariants, havoc what the loop modifies, assume invariants.
 func (e *Engine) enterLoop(fr *Frame, head *ssa.BasicBlock, s *State) *State {
+	e.useState(s)
 	li := e.loops(fr.fn)
 	ord := li.ordinal[head]
 	invs, _ := e.loopClauses(fr, head)
@@ -611,7 +620,13 @@ func (e *Engine) enterLoop(fr *Frame, head *ssa.BasicBlock, s *State) *State {
 				}
 				fr.condFrames[head][h] = bases
 				if e.collect != nil {
-					e.recWild(h) // an enclosing loop cannot rely on this inner frame
+					if lw == "freshwrites" {
+						e.recWild(h) // relative to this loop's start: an enclosing loop cannot rely on it
+					} else {
+						// absolute frame (objects that existed at function entry): an enclosing
+						// loop may assume the same frame, under the same condition
+						e.collect.bases[h] = append(e.collect.bases[h], T{"COND", "COND"})
+					}
 				}
 			}
 			for _, b := range bases {
@@ -663,9 +678,9 @@ func (e *Engine) heapWf(st *State, h T) {
 	_, v := arrayKV(h.Sort)
 	switch v {
 	case sSlice:
-		e.emit(fmt.Sprintf("(assert (forall ((x Ref)) (! (wf_slice (select %s x)) :pattern ((select %s x)))))", h.S, h.S))
+		e.emit(fmt.Sprintf("(assert (forall ((x Ref)) (! (wf_slice (select %s x)) %s)))", h.S, slicePatterns("(select "+h.S+" x)")))
 	case "(Array Int Slice)":
-		e.emit(fmt.Sprintf("(assert (forall ((x Ref) (i Int)) (! (wf_slice (select (select %s x) i)) :pattern ((select (select %s x) i)))))", h.S, h.S))
+		e.emit(fmt.Sprintf("(assert (forall ((x Ref) (i Int)) (! (wf_slice (select (select %s x) i)) %s)))", h.S, slicePatterns("(select (select "+h.S+" x) i)")))
 	}
 }
 
@@ -793,6 +808,10 @@ func (e *Engine) loopModified(fr *Frame, head *ssa.BasicBlock, s *State) (cells 
 			seen := map[string]bool{}
 			var bs []string
 			for _, b := range col.bases[h] {
+				if b.Sort == "COND" {
+					cond[h] = true
+					continue
+				}
 				txt, inv := e.loopInvariantTerm(b.S, n0, markOf, cellSet, s)
 				if b.Sort == "ELEMS" {
 					txt = "ELEMS:" + txt
